@@ -2,7 +2,7 @@
    (tools/props/C06.py encodes, prints and renders the same templates with the real engine).
    Decoders/encoders are unverified glue of the correspondence check.
 
-   case:   qbits lim fuel main  nctx (x tok)*  ntemplates (name <items>)*
+   case:   qbits lim fuel main  nctx (x tok)*  ntemplates (name <items> | name -1 errorkind)*
    items:  k item*k        nexpr: 0 n | 1 x
    item:   0 s | 1 x | 2 x s | 3 x <items> | 4 n <items> | 5 b req <items> | 6 | 7 b | 8 <nexpr>
          | 9 x <nexpr> | 10 ign k <nexpr>*k | 11 f <items> | 12 f arg | 13 <nexpr> m
@@ -81,10 +81,16 @@ Fixpoint dec_items (fuel : nat) (k : nat) (l : list Z) : option (list item * lis
 Fixpoint dec_templates (fuel : nat) (k : nat) (l : list Z) : option env :=
   match k, l with
   | O, [] => Some []
-  | S k', n :: cnt :: r => match dec_items fuel (Z.to_nat cnt) r with
-                           | Some (its, r2) => match dec_templates fuel k' r2 with Some e => Some ((n, its) :: e) | None => None end
-                           | None => None
-                           end
+  | S k', n :: cnt :: r =>
+      if cnt <? 0 then      (* n -1 code: a template that exists but fails to load with that error kind *)
+        match r with
+        | code :: r2 => match dec_templates fuel k' r2 with Some e => Some ((n, TBad code) :: e) | None => None end
+        | [] => None
+        end
+      else match dec_items fuel (Z.to_nat cnt) r with
+           | Some (its, r2) => match dec_templates fuel k' r2 with Some e => Some ((n, TGood its) :: e) | None => None end
+           | None => None
+           end
   | _, _ => None
   end.
 
